@@ -282,6 +282,9 @@ func init() {
 	addScoped("C03", "O3", in("writer/"), "(O3) a handler never writes into the backing array of a slice a decoder lent it (decoders reuse their label and value slices for the following rows).")
 	s2 := "(S2) every decoder field an emitted row depends on is reset for every record on every entry (array and newline-delimited framing alike), so a record never inherits ids, tags, labels or payload of the one before it."
 	addScoped("C06", "S2", in("zipkin", "Span", "span"), s2)
+	s5 := "(S5) the arrays a decoder hands to the row handler are created or cut for the current record; a local buffer that is only grown across records is never passed whole."
+	addScoped("C06", "S5", in("zipkin", "Span", "span", "OTLP", "otlp"), s5)
+	addScoped("C03", "S5", func(k string) bool { return !hasAny(k, "zipkin", "Span", "span", "OTLP", "otlp") }, s5)
 	addScoped("C03", "S2", func(k string) bool { return !hasAny(k, "zipkin") }, s2)
 	o2 := "(O2) byte slices that alias a tokenizer's buffer (jx Raw / StrBytes, Scanner.Bytes) never reach the row model without a copy."
 	addScoped("C06", "O2", in("zipkin", "Span", "span", "otlp"), o2)
